@@ -34,6 +34,7 @@ def run_case(case, res):
 
     explore.explore(lambda: fullrun.make(scn), lambda s: scn['script'](), case['bound'], judge, res,
                     dict(case), only=case.get('choices'), closing_ticks=12,
+                    shard=case.get('shard'),
                     max_execs=case.get('max_execs'))
     res.distinct('scenarios', case['scenario'])
     if case['scenario'] == 'enter-confirm':
@@ -42,7 +43,8 @@ def run_case(case, res):
 
 def cases_for(tier):
     bound = 1 if tier == 'quick' else 2
-    return [dict(scenario=name, bound=bound) for name in fullrun.scenarios()]
+    return [dict(scenario=name, bound=bound, shard=[i, 4]) for name in fullrun.scenarios()
+            for i in range(4)]
 
 
 def run(tier, seed, started):
@@ -57,7 +59,7 @@ def run(tier, seed, started):
     coverage = {
         'evaluations': c['executions'],
         'distinct_nontrivial': len(res.sets.get('schedules', ())),
-        'rule': ('12 scenarios x every choice vector with total deviation cost <= bound over the '
+        'rule': ('13 scenarios x every choice vector with total deviation cost <= bound over the '
                  'quiescent points of the explored phase; distinct = (scenario, choice vector)'),
         'deviation_bound_completed': 1 if tier == 'quick' else 2,
         'choice_points': c['choice_points'],
